@@ -18,7 +18,8 @@ RULE = ("every frame the library writes to the (fake) socket during: lifecycle h
         "strict encapsulation + common-packet-format parser of the reference target: header length field = bytes following, known command, "
         "session handle = the one the target granted (0 only before registration), status 0, options 0, exactly two items with exact item "
         "lengths, null address for SendRRData, connection address carrying the target's O->T id and sequence-count-first data for "
-        "SendUnitData; additionally each OS-level send() call must be exactly one frame. distinct = (command, request kind, payload length "
+        "SendUnitData; three long-lived connections (CIP generic messages, SLC reads, Micro800 reads) issue > 66 000 connected messages each so "
+        "frames with every 16-bit sequence count and the wrap are observed; additionally each OS-level send() call must be exactly one frame. distinct = (command, request kind, payload length "
         "class, scenario kind) of frames observed")
 ASSUMPTIONS = [
     "an unconnected request sent with session handle 0 after a failed registration is not judged ('zero only before registration')",
@@ -141,5 +142,55 @@ def run(ctx):
             sc.b.close()
         except ScenarioDead:
             continue
+    # ---- (4) long-lived connections: frames carrying every 16-bit sequence count, across the wrap -----------------------------------------------
+    long_kind = {0: "cip", 1: "slc", 2: "logix"}.get(ctx.shard) if quick else {0: "cip", 1: "slc", 2: "logix", 3: "cip", 4: "slc"}.get(ctx.shard)
+    if long_kind:
+        try:
+            import pycomm3 as p
+            if long_kind == "logix":
+                sc = LogixScenario(rng, size="small", config=CONFIGS[8])  # Micro800: one connected message per tag
+                b, drv, ok = sc.b, sc.drv, sc.ok()
+                names = [t.full_name for t in sc.prj.user_tags() if t.dtype.kind == "atomic" and not t.dims][:4] or [sc.prj.user_tags()[0].full_name]
+                def issue(i):
+                    return b.call("read", drv.read, *[names[i % len(names)]] * 250)
+            elif long_kind == "slc":
+                from vlib import refslc
+                b = Bench(rng)
+                dev = refslc.SLCDevice(rt.Identity(name="1747-L552/C SLC 5/05"), rng, b.log, refslc.DataTable.random(rng))
+                b.set_target(rt.RefTarget(rng, front=dev, routes={((1, 0),): dev}, policy=rt.Policy(), log=b.log))
+                drv = p.SLCDriver(b.host)
+                ok = b.call("open", drv.open)[0] == "ok"
+                def issue(i):
+                    return b.call("read", drv.read, *[f"N7:{(i + k) % 200}" for k in range(250)])
+            else:
+                b = Bench(rng)
+                t, dev = b.simple_target()
+                dev.responder = lambda rq: (0, (), b"ok")
+                drv = p.CIPDriver(b.host + "/bp/0")
+                ok = b.call("open", drv.open)[0] == "ok"
+                def issue(i):
+                    st = None
+                    for k in range(250):
+                        st = b.call("gm", drv.generic_message, service=0x0E, class_code=0x64, instance=1 + k, attribute=1, connected=True, request_data=bytes([i & 255]) * (k % 7))
+                    return st
+            if ok:
+                i = 0
+                while b.log.counts.get("connected-messages", 0) < 66200 and i < 400:
+                    st, out = issue(i)
+                    i += 1
+                    if st != "ok":
+                        res.ev()
+                        res.violation(f"long-connection-request-fails:{long_kind}", f"{long_kind} request batch {i} on a long-lived connection -> {out!r:.160} (connected message {b.log.counts.get('connected-messages', 0)})", {"kind": long_kind})
+                        break
+                    if i % 20 == 0:
+                        drain(res, b, f"long:{long_kind}")
+                res.count(f"long-connection-messages:{long_kind}", b.log.counts.get("connected-messages", 0))
+                res.count("sequence-wraps-observed", b.log.counts.get("sequence-wraps", 0))
+                res.seen("long", long_kind, b.log.counts.get("sequence-wraps", 0) > 0)
+                b.call("close", drv.close)
+            drain(res, b, f"long:{long_kind}")
+            b.close()
+        except ScenarioDead:
+            pass
     res.sample({"frame": "70 00 <len> <session granted by target> 00000000 <context> 00000000 | 00000000 0a00 0200 a100 0400 <O->T id granted> b100 <len> <seq> ...", "checked": "length fields, ids, item count"})
     return res
